@@ -77,6 +77,7 @@ fn main() {
         // record states as the current tree writes them (tools/mkfixtures.sh, on the unchanged tree only)
         match sys.as_str() {
             "cw20" => cw20::make_fixtures(&mut rng, random as usize, len, &out_path),
+            "cw1" => cw1::make_fixtures(&mut rng, random as usize, len, &out_path),
             _ => {
                 eprintln!("no fixtures for {sys}");
                 std::process::exit(2);
